@@ -1,5 +1,76 @@
 import EmsModel.Core.ClipProto
-/-! Line-protocol driver for C08 / C09 (applying clip masks); see `Core/ClipProto.lean`. -/
+import EmsModel.Core.MaskingSrc
+import EmsModel.Gen.MaskingSrc
+/-! Line-protocol driver for C08 / C09 (applying clip masks); see `Core/ClipProto.lean`.
+
+Ops evaluating the terms GENERATED from the source text of `emsarray.masking` (`Gen/MaskingSrc.lean`), cross-check of
+`harness/trans_masking.py`:
+  `srcfill <masked 0|1> <attrs name=value,…|-> <encoding names ,|-> <promoted fill NAN|NAT|-> <floating 0|1>`
+        → `MASKED` | `VAL:<value>` | `NAN` | `NAT` | `ERR` (ValueError) | `NONE` | `UNKNOWN`
+  `srcbounds <name=arr;…> <dims d,d,…>`  → `d=lo:hi,…` in the order asked | `ERR`
+  `srcclip <name=arr;…> <m|u> <arr>`     → array | `ERR` (same meaning as `gridclip`, computed by the generated programs) -/
 open Ems Ems.Proto
-def step (line : String) : String := (Ems.ClipProto.step? (words line)).getD "BAD"
+
+namespace Ems.MaskingSrcProto
+open Ems.ArrProto Ems.ClipProto
+
+def parseAttrs? (s : String) : Option (List (String × String)) :=
+  if s == "-" then some [] else
+  Proto.allSome ((s.splitOn ",").map fun kv =>
+    match kv.splitOn "=" with
+    | [k, v] => some (k, v)
+    | _ => none)
+
+def parseBit? (s : String) : Option Bool :=
+  if s == "0" then some false else if s == "1" then some true else none
+
+def showOutcome (attrs : List (String × String)) (promo : String) : Option MsOutcome → String
+  | some .maskedConstant => "MASKED"
+  | some (.attrValue n) => match attrs.lookup n with
+    | some v => s!"VAL:{v}"
+    | none => "KEYERROR"
+  | some .promotedFill => promo
+  | some .nan => "NAN"
+  | some .raiseValueError => "ERR"
+  | some .returnNone => "NONE"
+  | some (.unsupported _) => "UNKNOWN"
+  | none => "UNKNOWN"
+
+def step? (ws : List String) : Option String :=
+  match ws with
+  | ["srcfill", masked, attrs, enc, promo, floating] =>
+    some (match parseBit? masked, parseAttrs? attrs, parseBit? floating with
+    | some m, some ats, some fl =>
+      let f : MsFeatures := { isMasked := m, attrs := ats.map (·.1), encoding := parseNames enc,
+                              selfPromotes := promo != "-", floating := fl }
+      showOutcome ats promo (msDecide f Gen.msFindFillValue)
+    | _, _, _ => "BAD")
+  | ["srcbounds", masks, dims] =>
+    some (match parseMasks? masks with
+    | some ms =>
+      match Gen.msBoundsProg.run ms with
+      | some bs => joinWith "," ((parseNames dims).map fun d =>
+          match bs.lookup d with
+          | some b => s!"{d}={b.1}:{b.2}"
+          | none => s!"{d}=-")
+      | none => "ERR"
+    | none => "BAD")
+  | ["srcclip", masks, fill, arr] =>
+    some (match parseMasks? masks, parseArr? arr with
+    | some ms, some a =>
+      let fk := if fill == "m" then FillKind.maskable else FillKind.unmaskable
+      match Gen.msBoundsProg.run ms, Gen.msApplyProg.run ms fk a.names with
+      | some bounds, some .unchanged => showArr (a.crop bounds)
+      | some bounds, some (.masked m) => showArr ((a.crop bounds).whereMask (m.crop bounds))
+      | none, some _ => "ERR"
+      | _, none => "UNKNOWN"
+    | _, _ => "BAD")
+  | _ => none
+
+end Ems.MaskingSrcProto
+
+def step (line : String) : String :=
+  match Ems.MaskingSrcProto.step? (words line) with
+  | some s => s
+  | none => (Ems.ClipProto.step? (words line)).getD "BAD"
 def main : IO Unit := loop step
